@@ -1,5 +1,5 @@
 //! Functions for writing output in ska lo
-use hashbrown::{HashMap, HashSet};
+use hashbrown::HashMap;
 use std::fs::File;
 use std::io::Write;
 
@@ -109,13 +109,13 @@ pub fn create_fasta_and_vcf(
         .expect("Error writing VCF header");
 
         for (pos, reference_base, vec_chars) in vcf_records {
-            let alt_bases: Vec<char> = vec_chars
-                .iter()
-                .cloned()
-                .filter(|&c| c != reference_base && c != '-' && c != 'N')
-                .collect::<HashSet<_>>() // deduplicate alternative bases
-                .into_iter()
-                .collect();
+            // deduplicate alternative bases, keeping the order in which samples show them
+            let mut alt_bases: Vec<char> = Vec::new();
+            for &c in vec_chars.iter() {
+                if c != reference_base && c != '-' && c != 'N' && !alt_bases.contains(&c) {
+                    alt_bases.push(c);
+                }
+            }
 
             let genotypes: Vec<String> = vec_chars
                 .iter()
